@@ -11,6 +11,14 @@ S->I: TLC enumerates every (seed, family, site); the invariant certifies that th
       Namesake dimension: seeds that declare a record / enum / generic enum under the name of a built-in type
       (Option, Verdict, Result, String, bool, u32, List, ...; templates and the renaming operator of MCTyping.tla)
       and the families namesake-* that confuse such a type with the built-in where a rule mentions the built-in.
+      Method calls: seeds that call the built-in methods of String / List / numbers / bool / IpAddr / Prefix on every form of
+      receiver; families method-receiver (a value of another type as the receiver: literals, another parameter, another
+      field - the judgement decides which the method does not accept, e.g. the non-generic List[String].join on a List[u64]),
+      method-arg-type, method-arg-count, method-unknown.
+      Divergence accounting: family fallthrough-after-branch - the body of a function that must return a value ends in a
+      statement (if, if-else, match with / without guards and `_` arms, while, for, && / ||, nested) in which some but not all
+      paths exit; the shapes come from a grammar in MCTyping.tla, AllExit (the rule "every way through it exits") is held
+      against the judgement in both directions (mutants ill typed, twin seeds well typed).
 I->S: seeded random well-typed-by-construction programs (larger than the TLC seeds) and
       random single edits of them are compiled; every event {program, outcome} is validated
       by TLC against WellTyped (TraceTyping.tla).  Rejected programs the judgement accepts
@@ -77,6 +85,9 @@ def flatten(decls):
             n["last"] = [fl(x) for x in n["last"]]
         elif k in ("call", "ctor"):
             n["args"] = [fl(x) for x in n["args"]]
+        elif k == "mcall":
+            n["e"] = fl(n["e"])
+            n["args"] = [fl(x) for x in n["args"]]
         elif k == "rec":
             n["fs"] = [{"n": f["n"], "e": fl(f["e"])} for f in n["fs"]]
         elif k == "match":
@@ -106,7 +117,7 @@ def flatten(decls):
 
 OPS = {"add": "+", "sub": "-", "mul": "*", "div": "/", "mod": "%", "lt": "<", "le": "<=", "gt": ">",
        "ge": ">=", "eq": "==", "ne": "!=", "and": "&&", "or": "||"}
-ATOMS = {"int", "float", "bool", "str", "unit", "ip", "var", "call", "ctor", "list"}
+ATOMS = {"int", "float", "bool", "str", "unit", "ip", "var", "call", "ctor", "list", "mcall"}
 
 
 def ty_src(t, own_option=False):
@@ -189,6 +200,9 @@ class Printer:
             return "%s %s= %s" % (".".join(n["p"]), OPS[n["op"]], self.atom(n["e"]))
         if k == "call":
             return "%s(%s)" % (n["f"], ", ".join(self.expr(a) for a in n["args"]))
+        if k == "mcall":
+            # a method call; a receiver that is a variable or a field path prints as a path (`r.flags.join(..)`)
+            return "%s.%s(%s)" % (self.atom(n["e"]), n["m"], ", ".join(self.expr(a) for a in n["args"]))
         if k == "ctor":
             # en == "": the bare constructors Some(..) / None of the prelude (always the built-in Option)
             s = "%s.%s" % (n["en"], n["v"]) if n["en"] else n["v"]
@@ -384,7 +398,7 @@ class Gen:
             return self.lit(t)
         opts = ["leaf", "if", "blk"]
         if not env.get("const"):
-            opts += ["call", "match", "fld"]
+            opts += ["call", "match", "fld", "mcall"]
             if env["ret"]["k"] == "opt":
                 opts.append("try")
         if k in INT_TYS or k in FLOAT_TYS:
@@ -455,12 +469,61 @@ class Gen:
             return self.expr(env, t, d)
         if c == "try":
             return {"k": "try", "e": self.expr_definite(env, Opt(t), d)}
+        if c == "mcall":
+            m = self.mcall(env, t, d)
+            return m if m is not None else self.expr(env, t, d)
         if c == "match":
             return self.match(env, t, d)
         vs = self.vars_of(env, t)
         if vs:
             return V(rng.choice(vs))
         return self.lit(t)
+
+    def mcall(self, env, t, d):
+        """a call of a built-in method whose documented result type is t (None when there is none).  The receiver is
+        `definite` (roto looks the method up in the type the receiver has on its own)."""
+        rng = self.rng
+        k = t["k"]
+        S, B, U64 = T("String"), T("bool"), T("u64")
+
+        def mc(recv_t, m, arg_ts):
+            # the program never writes a shadowed built-in name; its values then only come from literals
+            return {"k": "mcall", "e": self.expr_definite(env, recv_t, d), "m": m, "args": [self.expr(env, a, d) for a in arg_ts]}
+
+        def elem():
+            e = self.any_ty(1)
+            return e
+        cands = []
+        if k == "bool":
+            cands += [lambda: mc(S, rng.choice(["contains", "starts_with", "ends_with", "eq"]), [S]),
+                      lambda: mc(ListOf(elem()), "is_empty", [])]
+            et = self.prim_ty()
+            cands.append(lambda: mc(ListOf(et), "contains", [et]))
+            if "f64" not in self.shadow:
+                cands.append(lambda: mc(T("f64"), rng.choice(["is_nan", "is_finite", "is_infinite"]), []))
+        elif k == "String":
+            cands += [lambda: mc(self.num_ty(), "to_string", []), lambda: mc(B, "to_string", []),
+                      lambda: mc(S, rng.choice(["trim", "trim_start", "trim_end", "to_uppercase", "to_lowercase", "to_string"]), []),
+                      lambda: mc(S, "append", [S]), lambda: mc(S, "replace", [S, S]), lambda: mc(S, "repeat", [U64]),
+                      lambda: mc(ListOf(S), "join", [S]), lambda: mc(ListOf(S), "join", [S])]
+        elif k == "u64":
+            cands += [lambda: mc(ListOf(elem()), rng.choice(["len", "capacity"]), [])]
+        elif k in FLOAT_TYS:
+            cands += [lambda: mc(t, rng.choice(["abs", "ceil", "floor", "round", "sqrt"]), []), lambda: mc(t, "pow", [t])]
+        elif k == "opt":
+            cands.append(lambda: mc(ListOf(t["a"]), "get", [U64]))
+            if t["a"] == U64:
+                et = self.prim_ty()
+                cands.append(lambda: mc(ListOf(et), "index", [et]))
+            if t["a"] == S:
+                cands.append(lambda: mc(S, rng.choice(["strip_prefix", "strip_suffix"]), [S]))
+        elif k == "list":
+            cands.append(lambda: mc(t, "concat", [t]))
+            if t["a"] == S:
+                cands += [lambda: mc(S, "split", [S]), lambda: mc(S, rng.choice(["splitn", "rsplitn"]), [U64, S])]
+        if not cands or any(x in self.shadow for x in ("String", "bool", "u64")):
+            return None
+        return rng.choice(cands)()
 
     def expr_definite(self, env, t, depth):
         """an expression whose own type is t without help from the context (a variable, a call,
@@ -538,7 +601,14 @@ class Gen:
             if env["vars"]:
                 opts += ["assign", "assign", "cassign"]
             opts += ["if", "while", "for", "exprstmt", "ifret"]
+            if any(vt["k"] == "list" for (_, vt) in env["vars"]) and "u64" not in self.shadow:
+                opts += ["listop"]
         c = rng.choice(opts)
+        if c == "listop":
+            n, vt = rng.choice([(n, vt) for (n, vt) in env["vars"] if vt["k"] == "list"])
+            if rng.random() < 0.7:
+                return {"k": "mcall", "e": V(n), "m": "push", "args": [self.expr(env, vt["a"], d)]}
+            return {"k": "mcall", "e": V(n), "m": "swap", "args": [self.expr(env, T("u64"), d), self.expr(env, T("u64"), d)]}
         if c == "let":
             t = self.any_ty()
             n = self.fresh("v")
@@ -659,7 +729,47 @@ def random_program(rng, size=3):
 # agree whenever the judgement rejects.
 
 MUT_OPS = ["rec-member", "insert-use", "lit", "rename", "swap-op", "wrap", "arg", "field", "arm", "elem", "annot", "dup-stmt", "del-stmt",
-           "swap-stmt", "insert-exit", "insert-assign", "suffix", "dup-decl", "decl-type", "member", "pattern", "namesake"]
+           "swap-stmt", "insert-exit", "insert-assign", "suffix", "dup-decl", "decl-type", "member", "pattern", "namesake",
+           "method", "fall-shape"]
+
+# arm forms of the random exit / fall-through shapes: (variant, guarded)
+MATCH_FORMS = [[("Some", 1), ("Some", 0), ("None", 0)], [("Some", 0), ("None", 0)], [("Some", 0), ("_", 0)],
+               [("Some", 0), ("_", 1), ("None", 0)], [("Some", 1), ("_", 0)], [("None", 0), ("Some", 1), ("_", 0)],
+               [("Some", 1), ("None", 1), ("_", 0)], [("None", 1), ("Some", 0), ("None", 0)]]
+
+
+def fall_shape(rng, add, mk_exit, depth):
+    """a random statement built from exit blocks, empty blocks, if / if-else / match (with and without guards, `_` arms) /
+    while / for / && / ||; returns the index of the statement node.  Whether some path falls through is for the judgement."""
+    TRUE = {"k": "bool", "v": True}
+
+    def block(as_operand=False):
+        r = rng.random()
+        if r < 0.55:
+            ss, fell = [mk_exit()], False
+        elif r < 0.75 or depth <= 0:
+            ss, fell = [], True
+        else:
+            ss, fell = [fall_shape(rng, add, mk_exit, depth - 1)], True
+        last = [add(dict(TRUE))] if (as_operand and fell) else []
+        return add({"k": "blk", "ss": ss, "last": last})
+
+    c = rng.choice(["if1", "ifelse", "ifelse", "match", "match", "match", "match", "while", "for", "and", "or"])
+    if c == "if1":
+        return add({"k": "if", "c": add(dict(TRUE)), "t": block(), "e": []})
+    if c == "ifelse":
+        return add({"k": "if", "c": add(dict(TRUE)), "t": block(), "e": [block()]})
+    if c == "while":
+        return add({"k": "while", "c": add({"k": "bool", "v": False}), "b": block()})
+    if c == "for":
+        return add({"k": "for", "n": "zz_it", "e": add({"k": "list", "es": [add(I(0))]}), "b": block()})
+    if c in ("and", "or"):
+        return add({"k": "bin", "op": c, "l": add({"k": "bool", "v": c == "and"}), "r": block(True)})
+    arms = []
+    for v, g in rng.choice(MATCH_FORMS):
+        arms.append({"v": v, "bs": ["zz_v"] if v == "Some" else [], "hb": v == "Some", "g": [add(dict(TRUE))] if g else [], "b": block()})
+    scrut = add({"k": "ctor", "en": "", "v": "Some", "args": [add(I(1))], "call": True})
+    return add({"k": "match", "e": scrut, "arms": arms})
 
 RANDOM_TYPES = [T("i32"), T("u8"), T("i64"), T("f64"), T("bool"), T("String"), T("unit"), Opt(T("i32")),
                 ListOf(T("u8")), T("u32"), T("i8")]
@@ -687,7 +797,7 @@ def _rand_lit(rng):
 
 
 EXPR_KINDS = {"int", "float", "bool", "str", "unit", "var", "neg", "not", "bin", "if", "blk", "call", "ctor", "rec",
-              "fld", "match", "try", "list"}
+              "fld", "match", "try", "list", "mcall"}
 
 
 def _rename_ty(t, old, new):
@@ -743,7 +853,54 @@ def mutate(rng, prog):
         return len(N)
 
     blocks = [i for i, n in enumerate(N) if n["k"] == "blk"]
-    if op == "namesake":
+    if op == "method":
+        # a method call appears or changes: the name (any documented method of any type, or a name no type has), the
+        # receiver (a literal / some name of the program), the arguments.  The judgement decides what is ill typed.
+        names = ALL_METHOD_NAMES + STATIC_FUNCTION_NAMES + ["zz_nomethod"]
+        calls = [i for i, n in enumerate(N) if n["k"] == "mcall"]
+        c = rng.choice(["wrap", "rename", "recv", "recv", "arg-add", "arg-drop", "arg-lit"]) if calls else "wrap"
+        if c == "wrap":
+            i = pick(EXPR_KINDS - {"blk"})
+            if i is None:
+                return None
+            inner = add(N[i])
+            N[i] = {"k": "mcall", "e": inner, "m": rng.choice(names), "args": [add(_rand_lit(rng)) for _ in range(rng.choice([0, 0, 1, 1, 2]))]}
+        else:
+            n = N[rng.choice(calls)]
+            if c == "rename":
+                n["m"] = rng.choice([x for x in names if x != n["m"]])
+            elif c == "recv":
+                n["e"] = add(V(rng.choice(_names_in(P))) if rng.random() < 0.5 else
+                             rng.choice([_rand_lit(rng), {"k": "list", "es": [add(I(1, "u64"))]}, {"k": "list", "es": [add({"k": "bool", "v": True})]},
+                                         {"k": "list", "es": [add({"k": "str", "v": "a"})]}]))
+            elif c == "arg-add":
+                n["args"].append(add(_rand_lit(rng)))
+            elif c == "arg-drop" and n["args"]:
+                n["args"].pop(rng.randrange(len(n["args"])))
+            elif c == "arg-lit" and n["args"]:
+                n["args"][rng.randrange(len(n["args"]))] = add(_rand_lit(rng))
+            else:
+                return None
+    elif op == "fall-shape":
+        # the body of a function that returns a value (a filtermap that ends in accept / reject; the initialiser of an
+        # annotated let) ends in a statement in which its value is returned on some paths, maybe on all
+        fns = [d for d in D if d["k"] in ("fn", "filtermap") and N[d["body"] - 1]["last"]
+               and (d["k"] == "fn" or N[N[d["body"] - 1]["last"][0] - 1]["k"] == "ret")]
+        if not fns:
+            return None
+        d = rng.choice(fns)
+        b = N[d["body"] - 1]
+        lets = [x for x in b["ss"] if N[x - 1]["k"] == "let" and N[x - 1]["t"] and N[x - 1]["t"][0] == d.get("ret")]
+        if lets and rng.random() < 0.2:
+            ln = N[rng.choice(lets) - 1]
+            e = ln["e"]
+            ln["e"] = add({"k": "blk", "ss": [fall_shape(rng, add, lambda: add({"k": "ret", "kind": "return", "e": [e]}), 2)], "last": []})
+        else:
+            e = b["last"][0]
+            mk_exit = (lambda: add({"k": "ret", "kind": "return", "e": [e]})) if d["k"] == "fn" else (lambda: e)
+            b["ss"].append(fall_shape(rng, add, mk_exit, 2))
+            b["last"] = []
+    elif op == "namesake":
         # a declared type and a built-in type of the same name: (a) a declared type is renamed to a built-in name
         # (everywhere, so the program stays well typed unless it also writes that name for the built-in);
         # (b) `Some(1)?` / accept / reject at the start of a function that returns a namesake; (c) a literal of the
@@ -1043,7 +1200,8 @@ FAMILIES = ["operand-bool", "operand-str", "logic-int", "cond-nonbool", "arg-cou
             "match-dup-arm", "neg-unsigned", "exit-forbidden", "assign-non-local", "redeclare",
             "recursive-type", "recursive-const", "elem-type", "return-type", "let-type", "assign-type",
             "fallthrough-after-loop", "fallthrough-after-shortcircuit", "cassign-result-type", "match-rename-arm", "name-sibling-scope", "recursive-member",
-            "namesake-exit", "namesake-operand", "namesake-return", "namesake-arg", "namesake-let", "namesake-field", "namesake-shadow"]
+            "namesake-exit", "namesake-operand", "namesake-return", "namesake-arg", "namesake-let", "namesake-field", "namesake-shadow",
+            "method-receiver", "method-arg-type", "method-arg-count", "method-unknown", "fallthrough-after-branch"]
 # the namesake dimension (script types declared under the name of a built-in type, Typing.tla "name resolution")
 NS_FAMILIES = [f for f in FAMILIES if f.startswith("namesake-")]
 NS_SHADOW_RULE = ("a type that cannot equal the expected one (or a recursive type) through a declaration that shadows a "
@@ -1059,6 +1217,37 @@ NS_TIER = {
               NS_FAMILIES[:-1] + ["exit-forbidden", "return-type", "arg-type", "let-type", "operand-str", "cond-nonbool"], ["i32"]),
     "thorough": (BUILTIN_NAMES, ["i32", "u8"], [f for f in FAMILIES if f != "namesake-shadow"], ["i32", "u8", "f64"]),
 }
+# the method-call dimension (Typing.tla "methods"): candidate names for the edit "rename the method" (names only: whether a
+# receiver has the method, with which parameters, is decided by the judgement).  Documented in docs/source/reference/std.
+METHODS = {
+    "String": ["append", "contains", "ends_with", "eq", "repeat", "replace", "rsplitn", "split", "splitn", "starts_with",
+               "strip_prefix", "strip_suffix", "to_lowercase", "to_string", "to_uppercase", "trim", "trim_end", "trim_start",
+               "bytes", "chars", "lines"],
+    "List": ["capacity", "concat", "contains", "get", "index", "is_empty", "join", "len", "push", "swap"],
+    "float": ["abs", "ceil", "floor", "is_finite", "is_infinite", "is_nan", "pow", "round", "sqrt", "to_string"],
+    "IpAddr": ["eq", "is_ipv4", "is_ipv6", "to_canonical", "to_string"],
+    "Prefix": ["addr", "eq", "len", "max_addr", "min_addr", "to_string"],
+}
+ALL_METHOD_NAMES = sorted({m for ms in METHODS.values() for m in ms})
+# the receiver-less functions of the types (List.new, String.from_chars, Prefix.new): called through a value they are ill
+# typed (no parameter for the receiver).  `xs.new()` on a list made the type checker panic on the pinned tree (index out of
+# bounds in method_call / path_function_call), repaired by a fix: commit (F-C06-static-fn-called-as-method); they are
+# candidate names of the renaming edits like every method name.
+STATIC_FUNCTION_NAMES = ["new", "from_chars"]
+METH_FAMILIES = ["method-receiver", "method-arg-type", "method-arg-count", "method-unknown"]
+DIV_FAMILY = "fallthrough-after-branch"
+METH_TIER = {
+    # method names a call is renamed to, types of the divergence seeds, functions that get every shape up to depth 2
+    "quick": (["len", "join", "contains", "to_string", "floor", "push", "get", "trim", "is_ipv4", "addr", "eq", "concat", "new"],
+              ["i32"], ["dv1"]),
+    "thorough": (ALL_METHOD_NAMES + STATIC_FUNCTION_NAMES, ["i32", "u8", "f64"], ["dv1", "dv2", "dv3", "dv4", "dv5"]),
+}
+# what must occur among the certified mutants of the new families (anti-vacuity; the tags are computed by TLC)
+METH_SITE_KINDS = {"method-receiver": ["lit", "var", "field"], "method-arg-count": ["add", "drop"], "method-unknown": ["fresh", "other"]}
+DIV_TAGS = ["if1", "ifelse", "match", "while", "for", "and", "or", "nested", "guarded-variant-arm-falls", "guarded-wildcard-arm-falls",
+            "unguarded-variant-arm-falls", "unguarded-wildcard-arm-falls", "only-guarded-arms-fall"] + ["form%d" % k for k in range(1, 8)]
+DIV_WHERE = ["fn-body", "filtermap-body", "let-init"]
+
 # the rule list of the property statement; every rule must be hit by a family that produced mutants
 RULES = ["operand type / arithmetic or ordering on non-numbers", "operand type", "condition type",
          "wrong argument count", "argument type", "missing, duplicate or unknown record field", "field type",
@@ -1072,12 +1261,15 @@ def mc_cfg(path, tys, max_members, tier):
     def tla_set(xs):
         return "{%s}" % ", ".join('"%s"' % x for x in xs)
     names, ns_tys, ns_fams, ren_tys = NS_TIER[tier]
+    swap, div_tys, div_deep = METH_TIER[tier]
     with open(path, "w") as f:
         f.write("SPECIFICATION MCSpec\nCONSTANTS\n  NumTys = %s\n  Families = %s\n  MaxMembers = %d\n"
                 "  NsNames = %s\n  NsTys = %s\n  NsFamilies = %s\n  RenameTys = %s\n"
+                "  SwapMethods = %s\n  DivTys = %s\n  DivDeepFns = %s\n"
                 "INVARIANTS SeedWellTyped MutantIllTyped Emit\nCHECK_DEADLOCK FALSE\n"
                 % (tla_set(tys), tla_set(FAMILIES), max_members, tla_set(names), tla_set(ns_tys),
-                   tla_set(ns_fams if ns_fams is not None else FAMILIES), tla_set(ren_tys if ren_tys is not None else tys)))
+                   tla_set(ns_fams if ns_fams is not None else FAMILIES), tla_set(ren_tys if ren_tys is not None else tys),
+                   tla_set(swap), tla_set(div_tys), tla_set(div_deep)))
 
 
 def norm_msg(res):
@@ -1175,6 +1367,74 @@ def namesake_guard(tier, seeds, mutants, ev):
     }
 
 
+def method_div_guard(tier, seeds, mutants, ev):
+    """anti-vacuity of the method-call and divergence-accounting dimensions: the seeds really call methods (every documented
+    method of the fragment legally, every receiver form), each new family has certified mutants of every kind of site, and the
+    exit / fall-through shapes TLC built cover every construct, arm form and position named in METH_SITE_KINDS / DIV_TAGS"""
+    def walk(prog):
+        for n in prog["nodes"]:
+            if n["k"] == "mcall":
+                yield n, prog["nodes"][n["e"] - 1]
+    used, recv_forms = {}, {}
+    for c in seeds:
+        if c.get("cls") == "twin":
+            continue
+        for n, r in walk(c["prog"]):
+            used[n["m"]] = used.get(n["m"], 0) + 1
+            recv_forms[r["k"]] = recv_forms.get(r["k"], 0) + 1
+    view_methods = {"bytes", "chars", "lines"}       # results outside the fragment: known to the judgement, not used by seeds
+    unused = [m for m in ALL_METHOD_NAMES if m not in used and m not in view_methods]
+    if unused:
+        raise vlib.ToolError("vacuous method dimension: no well-typed seed calls %s" % unused)
+    lacking = [k for k in ("var", "fld", "call", "list", "str", "int", "bin", "mcall", "try") if not recv_forms.get(k)]
+    if lacking:
+        raise vlib.ToolError("vacuous method dimension: no seed has a receiver of the form %s" % lacking)
+    kinds, per_method = {}, {}
+    for m in mutants:
+        if m["family"] in METH_FAMILIES:
+            w = m["site"].get("w", "-")
+            kinds[(m["family"], w)] = kinds.get((m["family"], w), 0) + 1
+            meth = [n["m"] for n in m["prog"]["nodes"] if n["k"] == "mcall"]
+            if not meth:
+                raise vlib.ToolError("method mutant without a method call: %s %s" % (m["seed"], m["site"]))
+    # receiver edits per called method (the method of the edited call is the same in seed and mutant)
+    for m in mutants:
+        if m["family"] == "method-receiver":
+            name = m["prog"]["nodes"][m["site"]["i"] - 1]["m"]
+            per_method[name] = per_method.get(name, 0) + 1
+    missing = [(f, w) for f, ws in METH_SITE_KINDS.items() for w in ws if not kinds.get((f, w))]
+    missing += [("method-arg-type", "-")] if not kinds.get(("method-arg-type", "-")) else []
+    # a receiver of another type must have been tried for every method the seeds call, in particular the non-generic List.join
+    missing += [("method-receiver", m) for m in used if not per_method.get(m)]
+    if missing:
+        raise vlib.ToolError("vacuous method dimension: no certified mutant for %s" % missing)
+    tags, where, per_where_tags = {}, {}, {}
+    div = [m for m in mutants if m["family"] == DIV_FAMILY]
+    for m in div:
+        st = m["site"]
+        where[st["w"]] = where.get(st["w"], 0) + 1
+        for t in st["tags"]:
+            tags[t] = tags.get(t, 0) + 1
+            per_where_tags.setdefault(st["w"], set()).add(t)
+    missing = [t for t in DIV_TAGS if not tags.get(t)] + [w for w in DIV_WHERE if not where.get(w)]
+    # the guarded-arm forms must occur in every position (function body, filtermap body, initialiser block of a let)
+    for w in DIV_WHERE:
+        missing += [(w, t) for t in ("only-guarded-arms-fall", "guarded-variant-arm-falls", "guarded-wildcard-arm-falls", "if1")
+                    if t not in per_where_tags.get(w, set())]
+    twins = [c for c in seeds if c.get("cls") == "twin"]
+    if missing or not twins:
+        raise vlib.ToolError("vacuous divergence dimension: no certified mutant for %s (twin seeds: %d)" % (missing, len(twins)))
+    ev.extra["method_calls"] = {
+        "methods_called_by_seeds": used, "receiver_forms_in_seeds": recv_forms,
+        "mutants_per_family_and_site_kind": {"%s/%s" % k: v for k, v in sorted(kinds.items())},
+        "receiver_edits_per_method": per_method, "renamed_to": METH_TIER[tier][0],
+    }
+    ev.extra["divergence_shapes"] = {
+        "mutants": len(div), "distinct_shapes": len({m["site"]["code"] for m in div}), "positions": where, "tags": tags,
+        "twin_seeds_exiting_on_every_path": len(twins),
+    }
+
+
 def spec_to_impl(tier, ev, verd):
     """S->I: TLC-certified mutants of the TLC seeds are compiled by the real compiler."""
     d = vlib.workdir(PID, "cfg")
@@ -1197,6 +1457,7 @@ def spec_to_impl(tier, ev, verd):
     if missing or not seeds:
         raise vlib.ToolError("vacuous model run: no mutants for %s (seeds=%d)" % (missing, len(seeds)))
     namesake_guard(tier, seeds, mutants, ev)
+    method_div_guard(tier, seeds, mutants, ev)
     ev.extra["mutants_per_family"] = fam_count
     ev.extra["mutants_per_rule"] = rule_count
     ev.extra["tlc_seeds"] = len(seeds)
@@ -1243,6 +1504,11 @@ def spec_to_impl(tier, ev, verd):
                         "ill-typed script rejected, but not with a type error report: %s\n%s" % (short(res), c["src"]), rep)
     if len(seeds_rejected) * 5 > len(seeds):
         raise vlib.ToolError("more than 20%% of the TLC seeds do not compile (generator defect): %s" % seeds_rejected[:5])
+    # the twins of the fall-through shapes (every path exits) and the method seeds show that the compiler accepts the
+    # constructs as such: if it does not, the mutants of those families would be rejected for another reason (vacuous)
+    new_rejected = [n for n, _ in seeds_rejected if n.startswith(("twin_", "mstr_", "mlist_", "mip", "div_"))]
+    if new_rejected:
+        raise vlib.ToolError("seeds of the method / divergence dimension rejected by the compiler: %s" % new_rejected[:5])
     for name, msg in seeds_rejected:
         vlib.log("C07 completeness note: seed %s is accepted by the judgement but rejected by the compiler: %s" % (name, msg))
     ev.extra["tlc_seeds_rejected_by_compiler"] = [s for s, _ in seeds_rejected]
@@ -1374,6 +1640,20 @@ def impl_to_spec(tier, ev, verd):
                                  "builtin_names_declared_in_compiled_programs": ns_names}
     if len(ns_seed_ok) * 10 < nprog or len(ns_names) < 6 or not ns_edit:
         raise vlib.ToolError("vacuous namesake dimension in the random programs: %s" % ev.extra["impl_namesake"])
+    # the same for method calls and for the exit / fall-through shapes
+    def methods_in(prog):
+        return [n["m"] for n in prog["nodes"] if n["k"] == "mcall"]
+    mc_seed_ok = [it for it in items if it["op"] == "seed" and it["cl"] == "ok" and methods_in(it["prog"])]
+    mc_names = sorted({m for it in mc_seed_ok for m in methods_in(it["prog"])})
+    per_op = {}
+    for o in ("method", "fall-shape"):
+        its = [it for it in items if it["op"] == o and it["id"] in evid]
+        per_op[o] = {"events": len(its), "accepted": sum(1 for it in its if it["cl"] in ("ok", "crash-accepted")),
+                     "rejected": sum(1 for it in its if it["cl"] == "type")}
+    ev.extra["impl_methods_and_shapes"] = {"random_programs_calling_methods_compiled": len(mc_seed_ok),
+                                           "method_names_in_compiled_programs": mc_names, "edits": per_op}
+    if len(mc_seed_ok) * 4 < nprog or len(mc_names) < 20 or any(v["accepted"] == 0 or v["rejected"] == 0 for v in per_op.values()):
+        raise vlib.ToolError("vacuous method / divergence dimension in the random programs: %s" % ev.extra["impl_methods_and_shapes"])
     if rejected - len(notes_total) < len(events) // 10:
         raise vlib.ToolError("vacuous trace: the judgement rejected only %d of %d events" % (rejected - len(notes_total), len(events)))
     return events
@@ -1384,8 +1664,10 @@ def binding_selfcheck(mutants, ev):
     logged as 'type' they have to be accepted."""
     pick = [m for m in mutants if not m.get("lax_rule")][:: max(1, len(mutants) // 6)][:6]
     # and one of each namesake family (the judgement has to resolve the shadowed names to reject them)
-    for f in NS_FAMILIES:
+    for f in NS_FAMILIES + METH_FAMILIES + [DIV_FAMILY]:
         pick += [m for m in mutants if m["family"] == f][:1]
+    # (the guarded-arm shapes: the judgement has to count the guarded arm for the divergence of the match)
+    pick += [m for m in mutants if m["family"] == DIV_FAMILY and "only-guarded-arms-fall" in m["site"]["tags"]][:2]
     good = [{"id": k, "prog": m["prog"], "outcome": "type"} for k, m in enumerate(pick)]
     bad = [{"id": k, "prog": m["prog"], "outcome": "ok"} for k, m in enumerate(pick)]
     u1, _, _ = validate_events(good, "selfcheck_good", ev)
@@ -1410,7 +1692,10 @@ def run(tier):
     ev.exhaustive = True
     ev.assumptions = [
         "fragment: single module; i8..u64, f32, f64, bool, String, (), Option, List, named records and enums, anonymous record "
-        "literals, Verdict of filtermaps; no f-strings, methods, generics declared in scripts, imports, runtime items",
+        "literals, Verdict of filtermaps, calls of the built-in methods of String / List / numbers / bool / IpAddr / Prefix on a value; "
+        "no f-strings, receiver-less functions of types (List.new, String.from_chars, Prefix.new), generic functions declared in "
+        "scripts, imports, runtime items",
+        "a method call whose receiver has a type the judgement keeps open (un-suffixed literal, variable bound to one) is not decided",
         "the judgement keeps integer-literal variables / unresolved element and verdict types flexible (accepts more than roto "
         "there); only 'judgement rejects => compiler must reject with a type error' is asserted, completeness is not",
         "exhaustive = all sites of all edit families on the finite seed set of the tier; random programs beyond that are seeded samples",
